@@ -54,7 +54,7 @@ def pb(v: int) -> bool:
 """
 
 # templates: {I} int operand slot, {B} bool operand slot
-INT_FORMS = ["({I} + {I})", "({I} - {I} * {I})", "({I} if {B} else {I})", "h1({I}, {B})", "array({I}, {I})[{I} % 2]",
+INT_FORMS = ["({I} + {I})", "({I} // 3 + {I})", "({I} - {I} * {I})", "({I} if {B} else {I})", "h1({I}, {B})", "array({I}, {I})[{I} % 2]",
              "((w := {I}) + {I} + w)", "(-{I})", "h0({I})", "h1({I} + {I}, {B} and {B})"]
 BOOL_FORMS = ["{I} < {I}", "{I} < {I} < {I}", "{I} <= {I} < {I} <= {I}", "({B} and {B})", "({B} or {B})",
               "({B} and {B} or {B})", "(not {B})", "({B} if {B} else {B})", "hb({I})", "{I} == {I}",
